@@ -192,7 +192,7 @@ func c06Sim(r *simcore.Run) {
 			apply = func() error { return proc.OnCreated(rs) }
 		case action <= 1:
 			kind = "delete"
-			rs := vRuleSet(src, model.sets[src])
+			rs := vDeletion(s.Draw(3, "deletion-shape"), src, model.sets[src])
 			apply = func() error { return proc.OnDeleted(rs) }
 		default:
 			var how string
